@@ -138,6 +138,7 @@ fn check(c: &Case, st: &mut Stats) -> Result<(), String> {
                             return st.violation("generate-vs-encap", format!("encap emitted {} but generate for the same fields gives {}", hex(&b[..n]), hex(&w2)));
                         }
                     }
+                    Ok(Err(e)) if b.len() >= 13 => return st.violation("encap-refuses-valid-description", format!("encap -> Err({:?}) for {:?} with a {}-byte buffer", e, c.d, b.len())),
                     Ok(Ok(_)) | Ok(Err(_)) => st.class("encap-did-not-fragment-here"),
                     Err(p) => return st.violation("encap-panic", format!("encap panicked: {}", p.0)),
                 }
@@ -189,6 +190,7 @@ fn check(c: &Case, st: &mut Stats) -> Result<(), String> {
                         return st.violation("generate-vs-encap", format!("encap_frag emitted {} but generate for the same fields gives {}", hex(&b[..n]), hex(&w2)));
                     }
                 }
+                Ok(Err(e)) if b.len() >= 7 => return st.violation("encap-refuses-valid-description", format!("encap_frag -> Err({:?}) for {:?} with a {}-byte buffer", e, c.d, b.len())),
                 Ok(Ok(_)) | Ok(Err(_)) => st.class("encap-did-not-fragment-here"),
                 Err(p) => return st.violation("encap-panic", format!("encap_frag panicked: {}", p.0)),
             }
